@@ -177,7 +177,7 @@ def check(run):
             run.inconclusive.append("C15_SKIP_M set: exhaustive stage skipped")
             return
         if thorough:
-            run.tlc_mc("PrefetchMC", "Prefetch_mc.cfg", None, workers=8, timeout=3000, name="Prefetch_mc.cfg (2 callers of each kind)")
+            run.tlc_mc("PrefetchMC", "Prefetch_mc.cfg", None, workers=4, timeout=3000, name="Prefetch_mc.cfg (2 callers of each kind)")
         else:
             run.tlc_mc("PrefetchMC", "Prefetch_mcq.cfg", None, workers=4, timeout=1500)
         run.tlc_mc("PrefetchMC", "Prefetch_live.cfg", None, workers=4, timeout=900, name="Prefetch_live.cfg (WaitReturns, fairness)")
@@ -208,6 +208,10 @@ def check(run):
             s.update(id=v["id"], cfg=v["cfg"], thr=v["thr"], np=v["np"], nw=v["nw"], nb=v["nb"], rd=v["rd"], ro=v["ro"])
             v["_sc"] = s
             scens.append(v)
+    only = os.environ.get("C15_ONLY")            # development aid: restrict to scenarios whose id starts with this
+    if only:
+        scens = [v for v in scens if v["id"].startswith(only)]
+        run.inconclusive.append("C15_ONLY set: scenario space restricted")
     log("[layers] %d layers, %d scenarios: %s" % (len(base), len(scens), " ".join(v["id"] for v in scens)))
 
     # ---- R: generation graph per scenario (one TLC run for all), edge cover, replay on both stores
@@ -279,6 +283,8 @@ def check(run):
                     sig, rp, badev = sig_of(events, min(line, len(events)), res["violated"], mode)
                     run.violation("trace-" + sig, "%s false while following the recorded trace" % res["violated"], rp)
                 else:
+                    if os.environ.get("C15_DEBUG"):
+                        write_json(os.path.join(os.environ["C15_DEBUG"], "drift-%s.json" % mode), tr[1][: line - tr[0] + 1])
                     run.inconclusive.append("SPEC-DRIFT %s (%s): event %d %s not explained by Prefetch.tla although no C15 formula is false; prefix: %s" % (
                         mode, tr[1][0].get("sc", {}).get("id"), line - tr[0], json.dumps(events[line - 1])[:500],
                         json.dumps([{k: x for k, x in e.items() if k != "sc"} for e in tr[1][max(0, line - tr[0] - 5): line - tr[0]]])[:1500]))
